@@ -92,6 +92,11 @@ def render(script, broken_at=None):
             lines.append("%s = copy_file(%r, extra_deps=%s)" % (v, 'f_' + name.replace('/', '_') + '.txt', d))
     if broken_at is not None and broken_at >= len(script):
         lines.append(BROKEN)
+    # scripts with two or more file-producing steps name ALL of them as explicit defaults (every
+    # one of them must stay a project of the solution); scripts with fewer leave the default set implicit
+    filevars = [var[n] for n, k, d in script if k in ('build_step', 'copy')]
+    if len(filevars) >= 2:
+        lines.append('default(%s)' % ', '.join(filevars))
     return '\n'.join(lines) + '\n'
 
 
